@@ -693,6 +693,52 @@ V("c16-twin-negative-refusal-in-helper", "C16", "-", "dask_array/_core_utils.py"
   ("dask_array/_core_utils.py", "def normalize_chunks(", "def _refuse_negative_sizes(chunks):\n" + _C16_NEG + "\n\ndef normalize_chunks("),
 ])
 
+# ---------------------------------------------------------------------------- C24
+V("c24-rechunk-pushdown-drops-getitem", "C24", "R24.1", "dask_array/io/_from_array.py",
+  "            chunks,\n            lock=self.operand(\"lock\"),\n            getitem=self.operand(\"getitem\"),\n            inline_array=self.inline_array,",
+  "            chunks,\n            lock=self.operand(\"lock\"),\n            inline_array=self.inline_array,", expect="_with_chunks")
+V("c24-slice-pushdown-drops-lock", "C24", "R24.1", "dask_array/io/_from_array.py",
+  "            new_chunks,\n            lock=self.operand(\"lock\"),\n", "            new_chunks,\n", expect="_accept_slice")
+V("c24-slice-pushdown-forces-asarray", "C24", "R24.1", "dask_array/io/_from_array.py",
+  "            meta=self.operand(\"meta\"),\n            asarray=self.operand(\"asarray\"),\n            fancy=self.operand(\"fancy\"),\n            _name_override=name,\n            _name_is_exact=True,\n            _region=new_region,",
+  "            meta=self.operand(\"meta\"),\n            asarray=True,\n            fancy=self.operand(\"fancy\"),\n            _name_override=name,\n            _name_is_exact=True,\n            _region=new_region,", expect="asarray")
+V("c24-from-array-drops-fancy", "C24", "R24.1", "dask_array/core/_conversion.py",
+  "            asarray=asarray,\n            fancy=fancy,\n", "            asarray=asarray,\n", expect="from_array")
+V("c24-from-array-always-locks", "C24", "R24.1", "dask_array/core/_conversion.py",
+  "    if lock is True:\n        lock = SerializableLock()", "    if lock is not False:\n        lock = SerializableLock()", expect="from_array")
+V("c24-region-tasks-unconditional-extras", "C24", "R24.2", "dask_array/io/_from_array.py",
+  "                    dsk = {k: (getitem, self.array, slc, *extra) for k, slc in zip(keys, slices)}", "                    dsk = {k: (getitem, self.array, slc, self.asarray_arg, lock) for k, slc in zip(keys, slices)}", expect="_layer")
+V("c24-region-extras-gate-one-keyword", "C24", "R24.2", "dask_array/io/_from_array.py",
+  "                if has_keyword(getitem, \"asarray\") and has_keyword(getitem, \"lock\") and (not self.asarray_arg or lock):", "                if has_keyword(getitem, \"lock\") and (not self.asarray_arg or lock):", expect="_layer")
+V("c24-arraylike-extras-swapped", "C24", "R24.2", "dask_array/_core_utils.py",
+  "                graph[key] = (getitem, arr, slc, kwargs.get(\"asarray\", True), kwargs.get(\"lock\", None))", "                graph[key] = (getitem, arr, slc, kwargs.get(\"lock\", None), kwargs.get(\"asarray\", True))", expect="graph_from_arraylike")
+V("c24-arraylike-extras-ungated", "C24", "R24.2", "dask_array/_core_utils.py",
+  "    if has_keyword(getitem, \"asarray\") and has_keyword(getitem, \"lock\") and (not asarray or lock):\n        kwargs = {\"asarray\": asarray, \"lock\": lock}\n    else:\n        # Common case, drop extra parameters\n        kwargs = {}",
+  "    if not asarray or lock:\n        kwargs = {\"asarray\": asarray, \"lock\": lock}\n    else:\n        # Common case, drop extra parameters\n        kwargs = {}", expect="graph_from_arraylike")
+V("c24-getter-reads-before-lock", "C24", "R24.3", "dask_array/_core_utils.py",
+  "    if lock:\n        lock.acquire()\n    try:\n        c = a[b]\n", "    c = a[b]\n    if lock:\n        lock.acquire()\n    try:\n        pass\n", expect="getter")
+V("c24-getter-release-not-in-finally", "C24", "R24.3", "dask_array/_core_utils.py",
+  "            c = np.asarray(c)\n    finally:\n        if lock:\n            lock.release()\n    return c", "            c = np.asarray(c)\n    finally:\n        pass\n    if lock:\n        lock.release()\n    return c", expect="getter")
+V("c24-layer-eager-slices-with-lock", "C24", "R24.4", "dask_array/io/_from_array.py",
+  "        if is_ndarray and not is_single_block and not lock:", "        if is_ndarray and not is_single_block:", expect="_layer")
+V("c24-layer-eager-slices-any-source", "C24", "R24.4", "dask_array/io/_from_array.py",
+  "        elif is_ndarray and is_single_block and not lock:", "        elif is_single_block and not lock:", expect="_layer")
+V("c24-layer-arraylike-with-region", "C24", "R24.4", "dask_array/io/_from_array.py",
+  "            if region is not None:\n                keys = list(product(", "            if region is not None and self.inline_array:\n                keys = list(product(", expect="graph_from_arraylike")
+V("c24-layer-arraylike-without-lock", "C24", "R24.4", "dask_array/io/_from_array.py",
+  "                    name=self._name,\n                    lock=lock,\n", "                    name=self._name,\n", expect="lock")
+V("c24-layer-default-getter-overrides-custom", "C24", "R24.5", "dask_array/io/_from_array.py",
+  "            getitem = self.operand(\"getitem\")\n            if getitem is None:\n                if self.operand(\"fancy\"):\n                    getitem = getter\n                else:\n                    getitem = getter_nofancy",
+  "            getitem = self.operand(\"getitem\")\n            if getitem is None or region is not None:\n                if self.operand(\"fancy\"):\n                    getitem = getter\n                else:\n                    getitem = getter_nofancy", expect="_layer")
+V("c24-twin-extras-as-ifexp", "C24", "-", "dask_array/io/_from_array.py",
+  "                if has_keyword(getitem, \"asarray\") and has_keyword(getitem, \"lock\") and (not self.asarray_arg or lock):\n                    extra = (self.asarray_arg, lock)\n                else:\n                    extra = ()\n",
+  "                extra = (self.asarray_arg, lock) if has_keyword(getitem, \"asarray\") and has_keyword(getitem, \"lock\") and (not self.asarray_arg or lock) else ()\n", twin=True)
+V("c24-twin-rebuild-via-locals", "C24", "-", "dask_array/io/_from_array.py",
+  "        name = f\"{self._name}-rechunk-{tokenize(self.chunks, chunks)}\"\n        return FromArray(\n            self.array,\n            chunks,\n            lock=self.operand(\"lock\"),\n            getitem=self.operand(\"getitem\"),",
+  "        name = f\"{self._name}-rechunk-{tokenize(self.chunks, chunks)}\"\n        lk = self.operand(\"lock\")\n        gi = self.operand(\"getitem\")\n        return FromArray(\n            self.array,\n            chunks,\n            lock=lk,\n            getitem=gi,", twin=True)
+V("c24-twin-getter-nested-lock-test", "C24", "-", "dask_array/io/_from_array.py",
+  "        if is_ndarray and not is_single_block and not lock:", "        if is_ndarray and not lock and not is_single_block:", twin=True)
+
 V("c02-detector-uses-forward-permutation", "C02", "R02.6", "dask_array/_blockwise.py",
   "        inv = expr._inverse_axes\n        dep_mapping = tuple(parent_mapping[inv[i]] for i in range(len(inv)))", "        dep_mapping = tuple(parent_mapping[ax] for ax in expr.axes)", expect="_symbolic_mapping")
 V("c02-twin-detector-local-rename", "C02", "-", "dask_array/_blockwise.py",
